@@ -293,6 +293,44 @@ def shadow_trace(lib, names, tid):
     return h.trace()
 
 
+def reenter_trace(lib, names, tid):
+    """a custom function that evaluates another formula on the same parser while it runs (a workbook name with a defining
+    formula): every evaluation of a formula that calls it calls it again, once per call site, also after it was rebound"""
+    h = Hist(lib, tid, {'reentrant_custom_function': True})
+    h.setvar('p1', 'va', enc(3))
+    h.setfn('p1', 'NAMED', {'mode': 'const', 'v': enc(42), 'i': 0}, shape='closure')
+    h.setfn('p1', 'FA', {'mode': 'arg', 'v': {'t': 'blank'}, 'i': 1}, shape='closure')
+    hp = h.parser('p1')
+    inner = ['2*21']
+
+    def nested(hh, args):
+        saved, hh.hooks = hh.hooks, {}
+        hh.frames.append([[], []])
+        try:
+            hh.p.parse(inner[0])
+        finally:
+            hh.frames.pop()
+            hh.hooks = saved
+    hp.hooks['call:NAMED'] = nested
+    hp.hooks['call:FA'] = nested
+    forms = [F.call('NAMED', F.string('rate')), F.binop('+', F.call('NAMED', F.num('1')), F.var('va')),
+             F.binop('*', F.call('FA', F.num('2')), F.call('FA', F.num('5'))), F.call('SUM', F.call('NAMED'), F.call('FA', F.num('1')))]
+    for _ in range(3):
+        for a in forms:
+            h.parse('p1', a)
+    inner[0] = 'va+SUM(1,2)'
+    h.setfn('p1', 'NAMED', {'mode': 'const', 'v': enc(10), 'i': 0}, shape='closure')
+    for a in forms:
+        h.parse('p1', a)
+    h.setvar('p1', 'va', enc(100))
+    for a in forms:
+        h.parse('p1', a)
+    hp.hooks = {}
+    for a in forms:
+        h.parse('p1', a)
+    return h.trace()
+
+
 def main(tier, replay=None):
     run = core.Run('C09', tier, keep_replays=bool(replay))
     lib = core.load_library()
@@ -311,6 +349,8 @@ def main(tier, replay=None):
             tr = [shadow_trace(lib, names, 1)]
         elif 'near_miss_names' in case:
             tr = [near_miss_trace(lib, names, 1)]
+        elif 'reentrant_custom_function' in case:
+            tr = [reenter_trace(lib, names, 1)]
         elif 'stamina_calls' in case:
             tr = [stamina_trace(lib, names, 1, case['stamina_calls'])]
         elif case.get('kind') == 'cold':
@@ -361,6 +401,7 @@ def main(tier, replay=None):
         emit(lambda tid: replay_case(lib, tid, rc))
     emit(lambda tid: shadow_trace(lib, names, tid))
     emit(lambda tid: near_miss_trace(lib, names, tid))
+    emit(lambda tid: reenter_trace(lib, names, tid))
     emit(lambda tid: stamina_trace(lib, names, tid, 12000 if quick else 120000))
     flush()
     # every documented name resolves also when the first look-ups of a process happen in several threads at once
